@@ -331,3 +331,16 @@ func (k *ExtendedKey) Neuter() (*ExtendedKey, error) {
 	return k.Neuter__real()
 }
 
+
+// cut "hdString": the text of a path-tag key made by VerifOpaqueKey is 'xkey' + a private/public letter + the raw tag
+// bytes - an injective function of the key, of fixed length (the real base58 serialisation cannot be executed on
+// symbolic bytes, and its abstract form has no length). Everything else goes to the real String.
+func (k *ExtendedKey) String() string {
+	if rt.CutActive("hdString") && k.VerifIsOpaque() && len(k.key) > 0 {
+		if k.isPrivate {
+			return "xkeyS" + string(k.key)
+		}
+		return "xkeyP" + string(k.key)
+	}
+	return k.String__real()
+}
